@@ -1,40 +1,21 @@
 /* contract of bloc::OpBIORExpression::value  (operator OR) */
-#include "rt.h"
-#include "bloc_exc.h"
-#include TYPES_H
-#include "vocab.h"
-#include "bloc_globals.h"
-#include "iface.h"
-#include "value_api.h"
-
-#define A1 (&g_eval_snap[0])
-#define A2 (&g_eval_snap[1])
+#include "prelude.h"
 
 struct Value *_ZNK4bloc16OpBIORExpression5valueERNS_7ContextE(struct OpBIORExpression *this, struct Context *ctx)
-__CPROVER_requires(IS_FRESH(this, sizeof(*this)) && IS_FRESH(ctx, sizeof(*ctx)))
-__CPROVER_requires(IS_FRESH(this->arg1, sizeof(struct Expression)) && IS_FRESH(this->arg2, sizeof(struct Expression)))
-__CPROVER_requires(__exc == 0 && g_eval_n == 0 && __caught_n == 0 && GLOBALS_PINNED)
-__CPROVER_assigns(g_eval_n, __CPROVER_object_whole(g_eval_ret), __CPROVER_object_whole(g_eval_snap), __CPROVER_object_whole(g_eval_node), __exc, __exc_type, __exc_obj)
-/* C01: only BLOC runtime errors leave an evaluator */
-__CPROVER_ensures(ONLY_RUNTIME_ERROR)
-/* evaluation order and count: arg1 first, arg2 at most once */
-__CPROVER_ensures(g_eval_n <= 2 && (g_eval_n >= 1 ==> g_eval_node[0] == this->arg1) && (g_eval_n == 2 ==> g_eval_node[1] == this->arg2))
+EVAL_PRE_BINOP
+EVAL_ASSIGNS
+ENS_ONLY_RT
+ENS_EVAL_SHORTCUT
 /* C04: Kleene OR over {T,F,N}, whatever tag the null carries */
-__CPROVER_ensures((g_eval_n == 2 && IN_BOOL_DOMAIN(A1) && IN_BOOL_DOMAIN(A2)) ==>
-                  (__exc == 0 && V_IS(RET, BOOLEAN) && KLEENE(RET) == K_OR(KLEENE(A1), KLEENE(A2))))
-__CPROVER_ensures((g_eval_n == 1 && __exc == 0) ==> (IN_BOOL_DOMAIN(A1) && KLEENE(A1) == K_T && V_IS(RET, BOOLEAN) && KLEENE(RET) == K_T))
-/* C02: the compiled type of OR is boolean */
-__CPROVER_ensures(__exc == 0 ==> (V_IS(RET, BOOLEAN) && VALID_TAG(RET)))
-/* C05: operands owned by a variable are left untouched, the result is a temporary */
-__CPROVER_ensures((g_eval_n >= 1 && V_LVALUE(A1)) ==> V_SAME(g_eval_ret[0], A1))
-__CPROVER_ensures((g_eval_n == 2 && V_LVALUE(A2)) ==> V_SAME(g_eval_ret[1], A2))
-__CPROVER_ensures(__exc == 0 ==> !V_LVALUE(RET))
+PROP(C04) __CPROVER_ensures((g_eval_n == 2 && IN_BOOL_DOMAIN(A1) && IN_BOOL_DOMAIN(A2)) ==> (OK && V_IS(RET, BOOLEAN) && KLEENE(RET) == K_OR(KLEENE(A1), KLEENE(A2))))
+/* a short cut is only taken when the first operand alone decides: true OR x */
+PROP(C04) __CPROVER_ensures((g_eval_n == 1 && OK) ==> (IN_BOOL_DOMAIN(A1) && KLEENE(A1) == K_T && V_IS(RET, BOOLEAN) && KLEENE(RET) == K_T))
+/* operands outside {boolean, untyped null} are a type error, never something else */
+PROP(C04) __CPROVER_ensures((g_eval_n >= 1 && !IN_BOOL_DOMAIN(A1)) ==> THROWN_RT(EXC_RT_INV_EXPRESSION))
+ENS_TYPE(BOOLEAN)
+ENS_FRAME1
+ENS_FRAME2
+ENS_OWN2
 ;
 
 #include FNS_C
-
-void harness(void)
-{
-  struct OpBIORExpression *this; struct Context *ctx;
-  _ZNK4bloc16OpBIORExpression5valueERNS_7ContextE(this, ctx);
-}
